@@ -598,43 +598,33 @@ func (e *Exec) closeLoop(li *loopInfo) {
 	if len(li.backs) == 0 {
 		return
 	}
-	var conds []string
-	var hs []*Heap
-	for _, b := range li.backs {
-		conds = append(conds, b.st.pc)
-		hs = append(hs, b.st.heap)
-	}
-	pc := or(conds...)
-	heap := c.hmerge(conds, hs)
-	c.curBlk = li.backs[0].from.Index
-	var srcBlocks []int
-	for _, b := range li.backs {
-		srcBlocks = append(srcBlocks, b.from.Index)
-	}
-	nObl := len(c.obls)
-	defer func() {
-		for _, o := range c.obls[nObl:] {
-			o.Blocks = srcBlocks
-		}
-	}()
-	phiVal := func(phi *ssa.Phi) Val {
-		var vals []Val
-		for _, b := range li.backs {
-			for i, p := range li.header.Preds {
-				if p == b.from {
-					vals = append(vals, e.val(phi.Edges[i]))
-					break
-				}
+	// one obligation per invariant clause and back edge (small queries; a single back edge keeps
+	// the plain name)
+	for bi, b := range li.backs {
+		c.curBlk = b.from.Index
+		nObl := len(c.obls)
+		var edgeIdx int
+		for i, p := range li.header.Preds {
+			if p == b.from {
+				edgeIdx = i
+				break
 			}
 		}
-		return e.iteVals(conds, vals, phi.Type(), "back_"+phi.Comment)
-	}
-	names := e.loopNames(li, phiVal)
-	sc := e.scope(heap, c.entry)
-	sc.names = names
-	for i, inv := range li.spec.Inv {
-		g := e.evalBool(sc, inv)
-		c.oblige("inv.keep", fmt.Sprintf("loop%d.inv.keep[%d]", li.ordinal, i+1), pc, g, "loop invariant preserved: "+inv.Src, e.pos(li.header.Instrs[0].Pos()))
+		phiVal := func(phi *ssa.Phi) Val { return e.val(phi.Edges[edgeIdx]) }
+		names := e.loopNames(li, phiVal)
+		sc := e.scope(b.st.heap, c.entry)
+		sc.names = names
+		for i, inv := range li.spec.Inv {
+			g := e.evalBool(sc, inv)
+			name := fmt.Sprintf("loop%d.inv.keep[%d]", li.ordinal, i+1)
+			if len(li.backs) > 1 {
+				name = fmt.Sprintf("%s@edge%d", name, bi+1)
+			}
+			c.oblige("inv.keep", name, b.st.pc, g, "loop invariant preserved: "+inv.Src, e.pos(li.header.Instrs[0].Pos()))
+		}
+		for _, o := range c.obls[nObl:] {
+			o.Blocks = []int{b.from.Index}
+		}
 	}
 }
 
@@ -1483,6 +1473,9 @@ func (e *Exec) execReturn(x *ssa.Return, st *State) {
 		results = append(results, e.coerce(e.val(r), sig.Results().At(i).Type()))
 	}
 	for _, gs := range e.con.GhostSets {
+		if gs.Post {
+			continue
+		}
 		esc := e.scope(c.entry, c.entry)
 		esc.where = "ghost-set " + gs.Name
 		esc.evalIdent(gs.Name)
@@ -1490,14 +1483,28 @@ func (e *Exec) execReturn(x *ssa.Return, st *State) {
 		val := esc.rvalue(esc.eval(gs.Val.E))
 		st.heap = c.hstore(st.heap, "G:"+gs.Name, idx.T, val.T)
 	}
-	sc := e.scope(st.heap, c.entry)
-	sc.results = results
-	sc.names = map[string]Val{}
+	resNames := map[string]Val{}
 	for i := 0; i < sig.Results().Len(); i++ {
 		if n := sig.Results().At(i).Name(); n != "" && n != "_" {
-			sc.names[n] = results[i]
+			resNames[n] = results[i]
 		}
 	}
+	for _, gs := range e.con.GhostSets {
+		if !gs.Post {
+			continue
+		}
+		gsc := e.scope(st.heap, c.entry)
+		gsc.results = results
+		gsc.names = resNames
+		gsc.where = "ghost-set-post " + gs.Name
+		gsc.evalIdent(gs.Name)
+		idx := gsc.rvalue(gsc.eval(gs.Idx))
+		val := gsc.rvalue(gsc.eval(gs.Val.E))
+		st.heap = c.hstore(st.heap, "G:"+gs.Name, idx.T, val.T)
+	}
+	sc := e.scope(st.heap, c.entry)
+	sc.results = results
+	sc.names = resNames
 	e.retCount++
 	for i, en := range e.con.Ensures {
 		g := e.evalBool(sc, en)
@@ -1648,7 +1655,7 @@ func (e *Exec) checkRefines(st *State, results []Val, pos token.Pos) {
 	c := e.c
 	for _, id := range e.con.Refines {
 		icon, binder := e.refineBinder(id)
-		sc := &Scope{e: e, c: c, cur: st.heap, old: c.entry, params: binder, names: map[string]Val{}, pkg: e.fn.Pkg.Pkg, tracks: map[string]*trackInfo{}, results: results}
+		sc := &Scope{e: e, c: c, cur: st.heap, old: c.entry, params: binder, names: map[string]Val{}, pkg: pkgOf(e.fn), tracks: map[string]*trackInfo{}, results: results}
 		for i, en := range icon.Ensures {
 			if mentionsTracks(en.E, icon) {
 				continue
@@ -1657,7 +1664,7 @@ func (e *Exec) checkRefines(st *State, results []Val, pos token.Pos) {
 			c.oblige("refine", fmt.Sprintf("refine[%s:%d]@ret%d", lastSeg(id), i+1, e.retCount), st.pc, g, "interface contract "+id+": "+en.Src, e.pos(pos))
 		}
 		// the refined contract's frame: callers through the interface rely on its modifies clause
-		fsc := &Scope{e: e, c: c, cur: c.entry, old: c.entry, params: binder, names: map[string]Val{}, pkg: e.fn.Pkg.Pkg, tracks: map[string]*trackInfo{}}
+		fsc := &Scope{e: e, c: c, cur: c.entry, old: c.entry, params: binder, names: map[string]Val{}, pkg: pkgOf(e.fn), tracks: map[string]*trackInfo{}}
 		e.checkFrameAgainst(icon, fsc, "refine-frame:"+lastSeg(id), st, pos)
 	}
 }
@@ -1715,7 +1722,7 @@ func (e *Exec) checkRefinesPre(entry *Heap) {
 	c := e.c
 	for _, id := range e.con.Refines {
 		icon, binder := e.refineBinder(id)
-		sc := &Scope{e: e, c: c, cur: entry, old: entry, params: binder, names: map[string]Val{}, pkg: e.fn.Pkg.Pkg, tracks: map[string]*trackInfo{}}
+		sc := &Scope{e: e, c: c, cur: entry, old: entry, params: binder, names: map[string]Val{}, pkg: pkgOf(e.fn), tracks: map[string]*trackInfo{}}
 		var hyp []string
 		for _, r := range icon.Requires {
 			hyp = append(hyp, e.evalBool(sc, r))
